@@ -371,8 +371,14 @@ def layer_b_case(arg):
             json.dump(sess, f_)
         os.makedirs(os.path.join(d, '.scratch-tmp'), exist_ok=True)
         env_ = dict(os.environ, PYTHONPATH=lib.REPO, PYTHONHASHSEED='0', TDDA_VERIF='1', TMPDIR=os.path.join(d, '.scratch-tmp'))
-        ps = subprocess.run([lib.PY, driver, os.path.join(d, 'session.json'), os.path.join(d, 'session.out')], cwd=d, env=env_,
-                            stdout=subprocess.PIPE, stderr=subprocess.PIPE, text=True, timeout=600)
+        for attempt_ in range(3):
+            ps = subprocess.run([lib.PY, driver, os.path.join(d, 'session.json'), os.path.join(d, 'session.out')], cwd=d, env=env_,
+                                stdout=subprocess.PIPE, stderr=subprocess.PIPE, text=True, timeout=600)
+            if ps.returncode >= 0:
+                break       # a negative status is death by signal (interpreter teardown abort under load, as in cli()): retry
+            for f_ in os.listdir(d):
+                if f_.startswith('sess') and f_.endswith('.csv'):
+                    os.remove(os.path.join(d, f_))
         if ps.returncode != 0 or not os.path.exists(os.path.join(d, 'session.out')):
             problems.append('a session of command lines %r in one process ended with status %d: %s'
                             % (sess, ps.returncode, ps.stderr[-300:]))
